@@ -8,7 +8,8 @@ from vlib.harness import ok, skip, viol
 
 PID = "C11"
 RULE = ("Generated programs (the C02 generator: all instruction forms, data directives, labels, EQU, any origin or none) "
-        "optionally extended by a bulk RMB/FCB block (sizes 0 / 300 / 3000 / 9000, thorough up to 40000), with or "
+        "optionally padded by an RMB/FCB block to sizes 300 / 3000 / 9000 or to an exact image length on a tape-block, "
+        "sector or granule edge (254..257, 509..511, 2290..2309, 4596..4611, 6902..6912), with or "
         "without NAM (1-12 letters/digits in either case), with or without --name, with END / END label / no END, "
         "are assembled by a real assembler.py process with each non-empty subset of {--to_bin, --to_cas, --to_dsk}. "
         "Oracle: reference image = in-process Program on the same lines; .bin == image byte for byte; the independent "
@@ -21,15 +22,20 @@ ASSUMPTIONS = [
     "the in-process assembly of the same lines is the reference image (its correctness is C01-C05's subject)",
     "vlib/casref.py and vlib/dskref.py read the outputs",
 ]
-HEALTH = {"nam": 0.3, "cli_name_only": 0.15, "no_name": 0.05, "multi_switch": 0.3}
+HEALTH = {"nam": 0.3, "cli_name_only": 0.15, "no_name": 0.05, "multi_switch": 0.3, "edge_length": 0.15}
 EXHAUSTIVE = {}
+
+# image lengths on the container formats' edges: tape block (255), disk sector (256) and granule (2304) with the
+# 10 header/trailer bytes of a machine-language file on disk
+EDGE_LENGTHS = ([254, 255, 256, 257, 509, 510, 511] + list(range(2290, 2310)) + list(range(4596, 4612)) + [6902, 6903, 6912])
 
 _NAMECH = "ABCDEFGHIJKLMNOPQRSTUVWXYZabcdefghijklmnopqrstuvwxyz0123456789"
 _name = st.text(alphabet=_NAMECH, min_size=1, max_size=12).filter(lambda s: s[0].isalpha())
 _switches = st.sampled_from([["bin"], ["cas"], ["dsk"], ["bin", "cas"], ["bin", "dsk"], ["cas", "dsk"], ["bin", "cas", "dsk"]])
 _case = st.fixed_dictionaries(dict(
     prog=proggen.program, nam=st.one_of(_name, _name, st.none(), st.none()), cli_name=st.one_of(_name, _name, st.none()),
-    nam_pos=st.integers(0, 3), bulk=st.sampled_from([0, 0, 0, 300, 300, 3000, 9000]), switches=_switches,
+    nam_pos=st.integers(0, 3), bulk=st.sampled_from([0, 0, 0, 300, 300, 3000, 9000]),
+    target_len=st.one_of(st.none(), st.none(), st.sampled_from(EDGE_LENGTHS)), switches=_switches,
     end=st.sampled_from(["none", "plain", "label"])))
 
 
@@ -50,8 +56,14 @@ def build(case):
                 stmts.append({"lab": s["lab"], "k": "inh", "mn": "NOP"})   # keep the label other statements refer to
             continue
         stmts.append(dict(s))
-    if case["bulk"]:
-        stmts.append({"lab": "", "k": "rmb", "val": proggen.lit(case["bulk"])})
+    bulk = case["bulk"]
+    if case.get("target_len"):
+        # pad the program so that the image has exactly the wanted length (needs the length of the unpadded program)
+        base = driver.assemble(proggen.render(dict(prog, stmts=stmts)), timeout=120)
+        if base.kind == "OK" and len(base.image) + 2 <= case["target_len"]:
+            bulk = case["target_len"] - len(base.image) - 1
+    if bulk:
+        stmts.append({"lab": "", "k": "rmb", "val": proggen.lit(bulk)})
         stmts.append({"lab": "", "k": "fcb", "vals": [proggen.lit(0xAA)]})
     if case["nam"]:
         stmts.insert(min(case["nam_pos"], len(stmts)), {"lab": "", "k": "nam", "text": case["nam"]})
@@ -88,6 +100,8 @@ def execute(case):
         labels.append("no_name")
     if len(case["switches"]) > 1:
         labels.append("multi_switch")
+    if len(image) in EDGE_LENGTHS:
+        labels.append("edge_length")
     entry_ok = {origin}
     if end_label:
         entry_ok.add(dict(ref.symbols).get(end_label, origin))
